@@ -21,7 +21,10 @@ Record pobs := {
   po_secure : bool; po_origin_form : bool; po_host : str;
   po_clock : Z;               (* the driver's clock (whole seconds) just before the request *)
   po_ts : Z;                  (* the ts parameter the proxy wrote, parsed by the driver (-1: unparsable) *)
-  po_status : Z; po_cleared : bool;
+  po_status : Z;
+  po_cleared : bool;          (* the LAST Set-Cookie for the session cookie clears it *)
+  po_live : bool;             (* some Set-Cookie for the session cookie carries a value *)
+  po_calls : list endpoint;   (* back-channel calls of the proxy during the request *)
   po_obs_base : str;          (* Location without its query *)
   po_query : str;             (* Location's raw query string *)
   po_params : list (str * str) }.   (* the same, split and decoded by Go's url.QueryUnescape, in the order written *)
@@ -86,6 +89,7 @@ Definition endpoint_eqb (a b : endpoint) : bool :=
 Definition proxy_mismatch (mac : str -> str -> str) (o : pobs) : bool :=
   let r := proxy_sign_out mac (po_base o) (po_secret o) (po_secure o) (po_origin_form o) (po_host o) (po_ts o) in
   negb ((p_status r =? po_status o)%Z && bool_eqb (p_clears r) (po_cleared o) &&
+        bool_eqb (p_sets_live r) (po_live o) && bool_eqb (p_asks r) (negb (is_nil (po_calls o))) &&
         str_eqb (l_base (p_loc r)) (po_obs_base o) && params_eqb (l_params (p_loc r)) (po_params o) &&
         (* on the wire: Values.Encode byte for byte, and the model's ParseQuery reads what Go's does *)
         str_eqb (encode_query (l_params (p_loc r))) (po_query o) &&
@@ -99,7 +103,7 @@ Definition proxy_holds (mac : str -> str -> str) (o : pobs) : bool :=
   let uri := form_get k_redirect_uri (po_params o) in
   let ts := form_get k_ts (po_params o) in
   let sg := form_get k_sig (po_params o) in
-  (po_status o =? 302)%Z && po_cleared o && str_eqb (po_obs_base o) (po_base o) &&
+  (po_status o =? 302)%Z && po_cleared o && negb (po_live o) && str_eqb (po_obs_base o) (po_base o) &&
   strs_eqb (map fst (po_params o)) [k_redirect_uri; k_sig; k_ts] &&
   (* scheme://Host/ for an ordinary request; the scheme-relative //Host/ is tolerated (same host) for
      an absolute-form request line only *)
@@ -122,16 +126,13 @@ Definition auth_mismatch (mac : str -> str -> str) (o : aobs) : bool :=
   match ao_raw o with
   | None => negb (resp_eqb (auth_model mac o) (ao_resp o))
   | Some raw =>
+      (* the fields the handlers see are the pairs of the raw query that parse (production chain: the
+         logging handler has parsed the form and dropped any error) *)
       let q := ao_req o in
-      match parse_query raw with
-      | None =>      (* ParseForm returns the error: validateRedirectURI answers 400 *)
-          negb (is_get (q_method q) &&
-                resp_eqb {| r_body := BGate 400%Z; r_clears := false; r_revoked := [] |} (ao_resp o))
-      | Some ps =>
-          negb (is_get (q_method q) && str_eqb (form_get k_redirect_uri ps) (q_uri q) &&
-                str_eqb (form_get k_sig ps) (q_sig q) && str_eqb (form_get k_ts ps) (q_ts q) &&
-                resp_eqb (auth_model mac o) (ao_resp o))
-      end
+      let ps := form_of_query raw in
+      negb (is_get (q_method q) && str_eqb (form_get k_redirect_uri ps) (q_uri q) &&
+            str_eqb (form_get k_sig ps) (q_sig q) && str_eqb (form_get k_ts ps) (q_ts q) &&
+            resp_eqb (auth_model mac o) (ao_resp o))
   end.
 
 Definition is_redirect_to (b : abody) (uri : str) : bool :=
